@@ -4,6 +4,6 @@ PROP = {"engines": [("list", "default"), ("slist", "default")],
                       "reverse/filter_mut/add_all/add_all_at/splice/splice_at) returns exactly the status, out-values and contents of the ideal pair of sequences, for all histories "
                       "from the constructor; backward traversal = mirror image (list). The model is run against the compiled code (ASan/UBSan) on all operand sizes 0-4 x positions, "
                       "all short histories, iterator programs, sort traces, fault plans and random long histories; range guards are regenerated from the C source on every run.",
-        "assumptions": ["both lists of a trace use the same allocator family (add_all/splice hand nodes of the source's family to the destination; mixed families end in a cross-family free, reproduced by model and code)",
+        "assumptions": ["splice / splice_at only: both lists use the same allocator family (they hand the source's nodes to the destination; with different families the model and the code both end in a cross-family free). All other operations, including add_all / add_all_at, are proved and run for every pair of families",
                         "size < 2^64 (size++ is modelled without wrap-around)",
                         "comparators, predicates and copy functions are pure functions"]}
